@@ -24,14 +24,22 @@ def run(rep, tier, seed):
     rep.ob('oracle:one-noise-element-per-output-element-on-real-BrownianInterval', f"{st2['evals']} tensors", not f2,
            json.dumps(f2[:1], default=str)[:800])
     rep.cov['real_bm_oracle'] = st2
+    nb = core.safe(lambda: (obm.noise_shape_tie(), {}))[0]
+    rep.ob('tie:noise-requested-at-sample-shape', '5 shapes x 4 Levy modes', not nb, json.dumps(nb[:2])[:600])
+    f3, st3 = core.safe(obm.rows_distinct_search, rng, 30 if tier == 'quick' else 600)
+    rep.ob('oracle:rows-of-real-BrownianInterval-pairwise-distinct', f"{st3['pairs']} row pairs", not f3,
+           json.dumps(f3[:1], default=str)[:800])
+    rep.cov['real_bm_rows'] = st3
     rep.cov.update(evaluations=st['evals'] + st2['evals'], distinct_nontrivial=st['evals'] + st2['configs'],
                    rule="(a) random row-wise SDE x solver x noise x sizes, batch 2/3/5: all rows but one perturbed (y0 and Brownian "
                         "rows) or rows permuted; the untouched row / the permuted output must be torch.equal; every run has a distinct "
                         "random SDE; (b) random BrownianInterval configs of shape (B,m): one element of every noise draw perturbed, "
-                        "only that element (W,U) / that row (A) may change")
-    rep._f = fails + f2
+                        "only that element (W,U) / that row (A) may change; (c) shapes with 1-3 batch dimensions x Levy modes: W rows, H rows and "
+                        "the noise part of A pairwise distinct across batch indices (shared noise makes them equal)")
+    rep._f = fails + f2 + f3
     return flow.conclude(rep, lambda r, b: r._f or (osde.c20_search(random.Random(r.seed + 41), 600)[0]
-                                                    or obm.element_noise_search(random.Random(r.seed + 43), 60, 20)[0]),
+                                                    or obm.element_noise_search(random.Random(r.seed + 43), 60, 20)[0]
+                                                    or obm.rows_distinct_search(random.Random(r.seed + 47), 200)[0]),
                          checker_cmd='lake build ' + ' '.join(PROOFS) + ' && #print axioms audit', trusted=TRUSTED)
 
 
